@@ -258,6 +258,13 @@ class ScriptedDaemon:
             for t in b.txs:
                 self.known_txs[t.txid] = t
 
+    def add_known(self, blocks):
+        '''Blocks off the best chain stay retrievable by hash (like bitcoind keeps orphans).'''
+        for b in blocks:
+            self.by_hash[b.hex_hash] = b
+            for t in b.txs:
+                self.known_txs.setdefault(t.txid, t)
+
     def set_mempool(self, txs):
         self.mempool = {t.txid: t for t in txs}
 
@@ -468,6 +475,8 @@ class World:
         self.bp_task = None
         self.flush_schedule = {}        # height -> True (full) / False (history only)
         self.on_full_flush = None       # callback(world) after each completed UTXO flush
+        self.on_job_start = None        # callback(job) before a worker job body runs
+        self.on_job_end = None          # callback(job) after it ran
         self.loop.job_hook = self._job_hook
         self.advanced = []              # heights whose advance_block job has completed
         self.closed = False
@@ -475,6 +484,8 @@ class World:
     # -- scheduling hooks ---------------------------------------------------------------------
     def _job_hook(self, job):
         func = getattr(job.func, '__func__', None)
+        if self.on_job_start:
+            self.on_job_start(job)
         if func is self.bpmod.BlockProcessor.advance_block:
             h = job.args[0].height
             directive = self.flush_schedule.get(h)
@@ -492,7 +503,7 @@ class World:
         return (self.caught_up_event.is_set() and not self.loop.has_ready()
                 and not self.loop.pending_jobs() and not self.daemon.pending)
 
-    def run_until_caught_up(self, max_steps=400000, step_hook=None):
+    def run_until_caught_up(self, max_steps=60000, step_hook=None):
         """Default schedule until the block processor is parked in its polling sleep after an
         on_caught_up (caught_up_event set, nothing runnable but timers).  Raises SyncFailed if
         the processing task ends, Stalled if nothing is enabled before that.  step_hook(k) is
@@ -504,7 +515,8 @@ class World:
                 step_hook(n)
             n += 1
             if n > max_steps:
-                raise Broken('sync did not finish')
+                raise Stalled(f'block processor still busy after {max_steps} scheduler steps '
+                              '(livelock)')
             if self.bp_task.done():
                 exc = self.bp_task.exception() if not self.bp_task.cancelled() else None
                 raise SyncFailed(exc)
@@ -538,6 +550,8 @@ class World:
 
     def _after_job(self, job):
         func = getattr(job.func, '__func__', None)
+        if self.on_job_end:
+            self.on_job_end(job)
         if func is type(self.db).flush_dbs and self.on_full_flush and job.args[1]:
             self.on_full_flush(self)
         if func is self.bpmod.BlockProcessor.advance_block and job.result[1] is None:
